@@ -84,9 +84,22 @@ Definition take (a : ptype) : argexpr :=
 Definition sig_param_ok (a : ptype) : bool :=
   match pt_form a with FRRef => false | _ => true end.
 
+(* the class the method belongs to, relative to the class of the object handed to mem_fun() *)
+Inductive clsrel := RSame | RMethInBase | RMethInDerived | RUnrelated.
+(* (obj.*method) is well-formed: the method is a member of the object's class or of a base of it *)
+Definition memptr_doc (r : clsrel) : bool :=
+  match r with RSame | RMethInBase => true | _ => false end.
+(* what the factory accepts, given how it passes the method pointer on *)
+Definition memptr_lib (P : memptr_pass) (r : clsrel) : bool :=
+  match P with
+  | MPImplicit => memptr_doc r
+  | MPExplicit => match r with RUnrelated => false | _ => true end     (* static_cast also converts D::* to B::* *)
+  | MPUnrecognised => false
+  end.
+
 Inductive functor_ty :=
 | TFun (ps : list ptype) (r : rtype)                                 (* ptr_fun / lambda / function object *)
-| TMemBound (obj_const meth_const : bool) (ps : list ptype) (r : rtype)   (* mem_fun(obj, &C::m) *)
+| TMemBound (rel : clsrel) (obj_const meth_const : bool) (ps : list ptype) (r : rtype)   (* mem_fun(obj, &C::m) *)
 | TBindLast (f : functor_ty) (v : base)                              (* sigc::bind(f, value of type v) *)
 | THideLast (f : functor_ty)                                         (* sigc::hide(f) *)
 | THideReturn (f : functor_ty)                                       (* sigc::hide_return(f) *)
@@ -102,7 +115,7 @@ Fixpoint forallb2 {A B} (p : A -> B -> bool) (l1 : list A) (l2 : list B) : bool 
 Fixpoint result_of (f : functor_ty) : rtype :=
   match f with
   | TFun _ r => r
-  | TMemBound _ _ _ r => r
+  | TMemBound _ _ _ _ r => r
   | TBindLast g _ => result_of g
   | THideLast g => result_of g
   | THideReturn _ => None
@@ -113,7 +126,7 @@ Fixpoint result_of (f : functor_ty) : rtype :=
 Fixpoint callable_args (f : functor_ty) (args : list argexpr) : bool :=
   match f with
   | TFun ps _ => forallb2 binds ps args
-  | TMemBound oc mc ps _ => (mc || negb oc) && forallb2 binds ps args
+  | TMemBound rel oc mc ps _ => memptr_doc rel && (mc || negb oc) && forallb2 binds ps args
   | TBindLast g v => callable_args g (args ++ [mkAE v false])          (* the stored copy, as T_type& *)
   | THideLast g => match args with [] => false | _ => callable_args g (removelast args) end
   | THideReturn g => callable_args g args
@@ -121,7 +134,7 @@ Fixpoint callable_args (f : functor_ty) (args : list argexpr) : bool :=
       (* every argument is static_cast to the declared parameter type of the typed functor *)
       match g with
       | TFun ps _ => forallb2 explicit_ok ps args
-      | TMemBound oc mc ps _ => (mc || negb oc) && forallb2 explicit_ok ps args
+      | TMemBound rel oc mc ps _ => memptr_doc rel && (mc || negb oc) && forallb2 explicit_ok ps args
       | _ => false                                   (* retype() only accepts ptr_fun / mem_fun / slot *)
       end
   end.
@@ -140,40 +153,62 @@ Definition tpass (m : hop_mode) (deduced : bool) (args : list argexpr) : list ar
   | _ => args
   end.
 
-Fixpoint lib_call_args (M : mtable) (f : functor_ty) (deduced : bool) (args : list argexpr) : bool :=
+Fixpoint lib_call_args (M : mtable) (P : memptr_pass) (f : functor_ty) (deduced : bool) (args : list argexpr) : bool :=
   match f with
   | TFun ps _ =>
       forallb2 binds ps (tpass (mode_of M "adaptor_functor") deduced args)
-  | TMemBound oc mc ps _ =>
-      (mc || negb oc) && forallb2 binds ps (tpass (mode_of M "bound_mem_functor") deduced args)
+  | TMemBound rel oc mc ps _ =>
+      memptr_lib P rel && (mc || negb oc) && forallb2 binds ps (tpass (mode_of M "bound_mem_functor") deduced args)
   | TBindLast g v =>
       let a := tpass (mode_of M "bind_functor<-1>") deduced args in
-      lib_call_args M g true (a ++ [mkAE v false])
+      lib_call_args M P g true (a ++ [mkAE v false])
   | THideLast g =>
       let a := tpass (mode_of M "hide_functor") deduced args in
-      match a with [] => false | _ => lib_call_args M g true (removelast a) end
+      match a with [] => false | _ => lib_call_args M P g true (removelast a) end
   | THideReturn g =>
-      lib_call_args M g true (tpass (mode_of M "retype_return_functor<void>") deduced args)
+      lib_call_args M P g true (tpass (mode_of M "retype_return_functor<void>") deduced args)
   | TRetype g =>
       let a := tpass (mode_of M "retype_functor") deduced args in
       match g with
       | TFun ps _ => forallb2 explicit_ok ps a
-      | TMemBound oc mc ps _ => (mc || negb oc) && forallb2 explicit_ok ps a
+      | TMemBound rel oc mc ps _ => memptr_lib P rel && (mc || negb oc) && forallb2 explicit_ok ps a
       | _ => false
       end
   end.
 
-Definition lib_call (M : mtable) (f : functor_ty) (deduced : bool) (args : list argexpr) (r : rtype) : bool :=
-  lib_call_args M f deduced args && result_ok (result_of f) r.
+Definition lib_call (M : mtable) (P : memptr_pass) (f : functor_ty) (deduced : bool) (args : list argexpr) (r : rtype) : bool :=
+  lib_call_args M P f deduced args && result_ok (result_of f) r.
 
 (* slot<R(A...)>(f) / signal<R(A...)>::connect(f): call_it instantiates the outermost operator()
    with explicit template arguments take_t<A>... *)
-Definition lib_accepts (M : mtable) (sig_args : list ptype) (r : rtype) (f : functor_ty) : bool :=
-  forallb sig_param_ok sig_args && lib_call M f false (map take sig_args) r.
+Definition lib_accepts (M : mtable) (P : memptr_pass) (sig_args : list ptype) (r : rtype) (f : functor_ty) : bool :=
+  forallb sig_param_ok sig_args && lib_call M P f false (map take sig_args) r.
 
 Definition tmodes_ok (M : mtable) : bool :=
   forallb (fun k => match mode_of M k with ByValue => false | _ => true end)
     ["adaptor_functor"; "bound_mem_functor"; "bind_functor<-1>"; "hide_functor"; "retype_return_functor<void>"; "retype_functor"].
+
+Definition memptr_ok (P : memptr_pass) : bool := match P with MPImplicit => true | _ => false end.
+
+(* Explicit conversions on the typed call path (functors/, adaptors/, signal.h, ...): the model
+   accounts for exactly these; any other explicit cast in the regenerated table is a conversion the
+   model does not know (file, enclosing function, kind, target type as written). *)
+Definition cast_row := (string * string * string * string)%type.
+Definition allowed_casts : list cast_row :=
+  [ ("retype.h", "operator()", "static_cast", "T_type")            (* TRetype: explicit_ok *)
+  ; ("retype_return.h", "operator()", "functional", "T_return")    (* retype_return<R>: explicit conversion of the result (AdaptorModel) *)
+  ; ("slot.h", "call_it", "static_cast", "typed_slot_rep<T_functor> *")   (* the erased call path, C20_gen_erased_call_well_typed *)
+  ; ("slot.h", "function_pointer_cast", "reinterpret_cast", "T_out")
+  ; ("slot.h", "function_pointer_cast", "reinterpret_cast", "void (*)()")
+  ; ("signal.h", "operator*", "static_cast", "const slot_type")    (* slot_base& to the typed slot it is *)
+  ; ("weak_raw_ptr.h", "notify_object_invalidated", "static_cast", "weak_raw_ptr<T> *")
+  ].
+Definition cast_row_eqb (a b : cast_row) : bool :=
+  match a, b with
+  | (f1, g1, k1, t1), (f2, g2, k2, t2) => String.eqb f1 f2 && String.eqb g1 g2 && String.eqb k1 k2 && String.eqb t1 t2
+  end.
+Definition casts_ok (l : list cast_row) : bool :=
+  forallb (fun c => existsb (cast_row_eqb c) allowed_casts) l.
 
 Definition all_bases : list base := [TInt; TLong; TDouble; TBool; TB; TD; TU; TPB; TPD].
 Definition all_forms : list form := [FVal; FLRef; FCRef; FRRef].
